@@ -989,6 +989,10 @@ def op_line(op) -> str:
 # scenarios
 # ---------------------------------------------------------------------------
 
+class LoggingInitError(Exception):
+    """qmi.start(): the logging initialisation step raised (whatever the class: NotADirectoryError, ValueError, ...)"""
+
+
 class Trace:
     """what one scenario produced: driver lines, implementation lines, oracle observations"""
 
@@ -1066,7 +1070,8 @@ def qline(op) -> str:
     k = op[0]
     if k == "qstart":
         _, valid, cfg_tcp, tcpF, udpF, peers = op[:6]
-        return f"qstart {int(valid)} {int(cfg_tcp)} {int(tcpF)} {int(udpF)} " + ("".join(str(int(b)) for b in peers) or "-")
+        return (f"qstart {int(valid)} {int(cfg_tcp)} {int(tcpF)} {int(udpF)} " + ("".join(str(int(b)) for b in peers) or "-") +
+                f" {int(bool(op[6] if len(op) > 6 else 0))}")
     if k in ("qstop", "qcontext"):
         return k
     if k == "qprobe":
@@ -1140,7 +1145,6 @@ def run_singleton(seed, ops, policy="weighted") -> Trace:
             import sys as _sys
             import tempfile
             from qmi.core import logging_init as _li
-            tr.no_model = True
             with tempfile.TemporaryDirectory() as d:
                 blocker = os.path.join(d, "not-a-directory")
                 with open(blocker, "w") as f:
@@ -1180,7 +1184,12 @@ def run_singleton(seed, ops, policy="weighted") -> Trace:
                 k = op[0]
                 try:
                     if k == "qstart":
-                        qstart(*op[1:])
+                        try:
+                            qstart(*op[1:])
+                        except (NotADirectoryError, FileNotFoundError, PermissionError, ValueError) as e:
+                            if len(op) > 6 and op[6]:
+                                raise LoggingInitError(f"{type(e).__name__}: {e}") from e     # the model's name for "_init_logging() raised"
+                            raise
                         o = "ok"
                     elif k == "qstop":
                         qmi.stop()
@@ -2241,7 +2250,8 @@ def gen_singleton(rng, max_ops: int):
         tcpF = int(cfg_tcp and rng.random() < 0.3)
         udpF = int(rng.random() < 0.1)
         valid = rng.random() > 0.07
-        ops.append(["qstart", valid, cfg_tcp, tcpF, udpF, peers])
+        logF = rng.choice(["logdir", "loglevel", "console", "loglevels"]) if rng.random() < 0.12 else 0
+        ops.append(["qstart", valid, cfg_tcp, tcpF, udpF, peers, logF] if logF else ["qstart", valid, cfg_tcp, tcpF, udpF, peers])
         for _ in range(rng.randint(0, max_ops)):
             r = rng.random()
             if r < 0.45:
@@ -2754,6 +2764,8 @@ class C12(Prop):
                     res.count("fault_qstart_udp")
                 elif not all(op[5]):
                     res.count("fault_qstart_peer_unreachable")
+                if len(op) > 6 and op[6]:
+                    res.count("fault_qstart_logging_" + str(op[6]))
             if k in ("addh", "q-addh"):
                 hop = op if k == "addh" else op[1]
                 res.count("stop_handler_%s_%s" % (hop[2] if len(hop) > 2 else "def", hop[1]))
@@ -3056,6 +3068,7 @@ class C12(Prop):
         n += self._real(res, rounds=ctx.scale(1, 5))
         ctx.log(f"busy objects, acting release steps, real sockets done: {n} scenarios")
         self._diff(res, batch)
+        ctx.log("model diff done")
         for case, tr in batch[:2] + [b for b in batch if b[0]["kind"] == "single"][:1] + [b for b in batch if b[0]["kind"] == "conc"][-1:]:
             res.sample({"case": _short(case), "lines": tr.lines[:12], "impl": tr.impl[:12]})
         return res
